@@ -19,7 +19,7 @@ echo "validated against /repo HEAD $(git -C /repo rev-parse --short HEAD) on $(d
 timeout 300 /venv/bin/python $OUT/demo.py $S/repo > $S/demo_mod.log 2>&1; echo "demo on modified copy: exit $?"
 timeout 300 /venv/bin/python $OUT/demo.py /repo > $S/demo_orig.log 2>&1; echo "demo on unmodified /repo: exit $?"
 tail -3 $S/demo_mod.log | sed 's/^/   modified> /'
-( cd $S/repo && /venv/bin/python -m pytest -q -p no:cacheprovider --timeout=900 --continue-on-collection-errors --junitxml=$S/junit.xml > $S/pytest.log 2>&1 )
+( cd $S/repo && OMP_NUM_THREADS=2 OPENBLAS_NUM_THREADS=2 /venv/bin/python -m pytest -q -p no:cacheprovider --timeout=900 --continue-on-collection-errors --junitxml=$S/junit.xml > $S/pytest.log 2>&1 )
 echo "suite on modified copy: $(tail -1 $S/pytest.log)"
 python3 /verif/tools/baseline_compare.py $S/junit.xml /root/.vp/BASELINE.json
 echo "baseline compare exit: $?"
